@@ -966,8 +966,8 @@ def settings(ctx):
         "no VRO word names an existing file in the working directory (tag files are not modelled); no setup pseudo-tag, "
         "no LOCAL: versions, no --ignore-versions",
         "walk_is_designation and its corollaries: wf_db (no version name is itself a relational expression, no chain "
-        "file named keep), distinct_versions (a version file lists a flavor once), and for latest / expression entries "
-        "total_order_on vcmp (names declared for the product)",
+        "file named keep) and total_order_on vcmp (the version names declared for the product), which only the "
+        "latest and expression entries use",
         "the designation rule speaks about a product not yet chosen in the running command (alreadySetupProducts has no "
         "entry for it); with an entry the model is tied to the code by correspondence and earlier_rank_wins"]
 
@@ -981,7 +981,7 @@ def run(ctx):
     rng = ctx.rng
     groups = [case_to_group(c) for c in corpus_groups()]
     ncorpus = len(groups)
-    ndb = ctx.size(500, 8000)
+    ndb = ctx.size(500, 6000)
     nreq = ctx.size(20, 30)
     for _ in range(ndb):
         groups.append(gen_group(rng, nreq))
